@@ -339,6 +339,27 @@ def gen_cases(kind, seed, n):
         elif kind == "c15":
             wmode = r.pick(["nan", "real", "mixed"])
             ops = gen_mutations(r, names, 2 + r.below(8), wmode=wmode)
+            if wmode != "nan" and r2.below(100) < 30:
+                # weights that cancel: zero and negative weights, so that a group of parallel edges (or a lone
+                # edge) sums to exactly 0 - the collapsed edge must still be there, with weight 0
+                ops, wmode = resign(r2, ops), "signed"
             cases.append(scaled({"id": "h%d" % i, "spec": sp, "snap_each": False,
                                  "ops": ops + [("snap",)] + derived_battery(r, names)}, wmode))
     return cases
+
+
+def resign(r2, ops):
+    """replaces every real weight of a history by one of -2..2 (drawn from the separate stream)"""
+    def rw(e):
+        return e if e[2] is None else (e[0], e[1], r2.pick([-2, -1, 0, 0, 1, 2]), e[3])
+    out = []
+    for op in ops:
+        if op[0] == "add_edge":
+            out.append((op[0], rw(op[1])))
+        elif op[0] == "add_edges":
+            out.append((op[0], [rw(e) for e in op[1]]))
+        elif op[0] == "new_from":
+            out.append((op[0], (op[1][0], [rw(e) for e in op[1][1]])))
+        else:
+            out.append(op)
+    return out
